@@ -537,7 +537,9 @@ class ParentsProvider:
         # Try to use commit graph for faster parent lookup
         if self.commit_graph:
             parents = self.commit_graph.get_parents(commit_id)
-            if parents is not None:
+            # A stale commit graph (e.g. written before a gc) may still
+            # describe commits that are gone: only answer for commits we have.
+            if parents is not None and (commit is not None or commit_id in self.store):
                 return parents
 
         # Fallback to reading the commit object
